@@ -40,7 +40,10 @@ theorem facts_pinned :
     Facts.C04.materialisingGetters = [] ∧
     Facts.C04.getCellStyleMaterialises = false ∧
     Facts.C04.searchMustCompile = false ∧
-    Facts.C04.searchTracksPositions = true := by decide
+    Facts.C04.searchTracksPositions = true ∧
+    Facts.C04.rowsBoundByTotalRows = true ∧
+    Facts.C04.checkSheetBoundsRows = true ∧
+    Facts.C04.checkRowSizesByGreatest = true := by decide
 
 /-- clause "every Get*, Rows, Cols, SearchSheet": the exported read functions of
 `*File` are exactly the ones the purity / no-panic oracle draws from; a new getter
@@ -66,11 +69,11 @@ representation invariant — sparse rows, gaps, styled-but-empty cells, formulas
 without value, missing `r` attributes on rows and cells — and every position:
 indexing the jagged result of `GetRows` gives the value of the cell, and the
 empty string wherever the result was trimmed. -/
-theorem readers_agree (s : Sheet) (h : WF s) (c r : Nat) (hc : 1 ≤ c) (hr : 1 ≤ r) :
-    cellOf (getRows s) c r = value s c r := by
+theorem readers_agree (s : Sheet) (h : WF s) (ha : RowAttrsOK s) (c r : Nat) (hc : 1 ≤ c)
+    (hr : 1 ≤ r) : cellOf (getRows s) c r = value s c r := by
   have hc0 : ¬ (c = 0 ∨ r = 0) := by omega
   unfold cellOf value
-  rw [if_neg hc0, getRows_get s h (r - 1)]
+  rw [if_neg hc0, getRows_get s h ha (r - 1)]
   have hr' : r - 1 + 1 = r := by omega
   rw [hr']
   have := rowCells_get (rowAt 0 s r) (colsAsc_rowAt s 0 r h) (c - 1)
@@ -89,7 +92,7 @@ theorem getCellValue_agrees (s : Sheet) (h : WF s) (he : Explicit s) (c r : Nat)
 (c,r): `cellOf (getRows s) c r = getCellValue s (c,r)`. -/
 theorem getRows_agrees_getCellValue (s : Sheet) (h : WF s) (he : Explicit s) (c r : Nat)
     (hc : 1 ≤ c) (hr : 1 ≤ r) : cellOf (getRows s) c r = getCellValue s c r := by
-  rw [readers_agree s h c r hc hr, getCellValue_agrees s h he c r]
+  rw [readers_agree s h (rowAttrsOK_of_explicit s he) c r hc hr, getCellValue_agrees s h he c r]
 
 /-- clause "differing from the full grid only by the documented trimming": exactly
 what `GetRows` cuts. The result has as many rows as the number of the last row
@@ -97,12 +100,39 @@ that has a live cell (non-empty value or formula), and row `j+1` has as many cel
 as the column of its last live cell — so only trailing cells that are empty and
 not formulas, and trailing rows without live cells, are missing; together with
 `readers_agree` nothing else differs from the grid. -/
-theorem getRows_trim_spec (s : Sheet) (h : WF s) :
+theorem getRows_trim_spec (s : Sheet) (h : WF s) (ha : RowAttrsOK s) :
     (getRows s).length = lastLiveRow 0 s 0 ∧
     ∀ j, (((getRows s)[j]?).getD []).length = lastLive 0 (rowAt 0 s (j + 1)) 0 := by
-  refine ⟨getRows_length s h, fun j => ?_⟩
-  rw [getRows_get s h j]
+  refine ⟨getRows_length s h ha, fun j => ?_⟩
+  rw [getRows_get s h ha j]
   exact rowCells_length _ (colsAsc_rowAt s 0 (j + 1) h)
+
+/-- clause "the value of a cell is the same whichever read interface is used", `GetCols`
+and the `Cols` iterator: for every sheet satisfying the invariant whose present cell
+references name the row they stand in, and every position, indexing the jagged result of
+`GetCols` by (column, row) gives the value of the cell — inside the returned columns and
+(empty) beyond them. -/
+theorem getCols_agrees (s : Sheet) (h : WF s) (hc : Consistent 0 s) (c r : Nat) (h1 : 1 ≤ c)
+    (h2 : 1 ≤ r) : cellOfCols (getCols s) c r = value s c r :=
+  getCols_cell s h hc c r h1 h2
+
+/-- the list `Cols.Rows` yields for column `c` (any `c`), indexed from 0 -/
+theorem cols_iterator_column (s : Sheet) (h : WF s) (hc : Consistent 0 s) (c j : Nat) :
+    ((colCells s c)[j]?).getD [] = value s c (j + 1) :=
+  colCells_get s h hc c j
+
+/-- shape of `GetCols`: one list per column up to the greatest effective column of any
+cell element (styled-empty cells included: `GetCols` does not trim trailing empty
+columns), and no cell has a value to the right of it. -/
+theorem getCols_shape (s : Sheet) :
+    (getCols s).length = totalCols s ∧ ∀ c r, totalCols s < c → value s c r = [] :=
+  ⟨getCols_length s, fun c r h => value_nil_beyond_totalCols s c r h⟩
+
+/-- `GetRows` and `GetCols` agree cell by cell -/
+theorem getRows_agrees_getCols (s : Sheet) (h : WF s) (ha : RowAttrsOK s) (hc : Consistent 0 s)
+    (c r : Nat) (h1 : 1 ≤ c) (h2 : 1 ≤ r) :
+    cellOf (getRows s) c r = cellOfCols (getCols s) c r := by
+  rw [readers_agree s h ha c r h1 h2, getCols_agrees s h hc c r h1 h2]
 
 /-- clause "SearchSheet agrees" (literal search): on a sheet inside the grid the
 result is, in document order, the list of cell elements whose value equals the
@@ -181,13 +211,18 @@ theorem nonvacuous :
                                   ⟨0, 0, [], true, false⟩, ⟨7, 2, [], false, false⟩]⟩,
                       ⟨0, false, []⟩,
                       ⟨5, true, [⟨2, 5, ['a'], false, false⟩]⟩, ⟨0, false, [⟨0, 0, [], false, true⟩]⟩]
-    WF s ∧ InGrid 0 s ∧
+    WF s ∧ InGrid 0 s ∧ RowAttrsOK s ∧ Consistent 0 s ∧
     getRows s = [[], [['a'], [], [], [], []], [], [], [[], ['a']]] ∧
+    getCols s = [[[], ['a'], [], [], [], []], [[], [], [], [], ['a']], [[], [], [], [], []],
+                 [[], [], [], [], []], [[], [], [], [], []], [[], [], [], [], []],
+                 [[], [], [], [], []]] ∧
     searchSheet s ['a'] = .ok [(1, 2), (2, 5)] ∧
     value s 5 2 = [] ∧ value s 2 5 = ['a'] := by
-  refine ⟨?_, ?_, by decide, by decide, by decide, by decide⟩
+  refine ⟨?_, ?_, ?_, ?_, by decide, by decide, by decide, by decide, by decide⟩
   · simp [WF, RowsAsc, ColsAsc, effRow, effCol]
   · simp [InGrid, InGridCells, effRow, effCol, Facts.MaxColumns, Facts.TotalRows]
+  · simp [RowAttrsOK, Facts.TotalRows]
+  · simp [Consistent, RefsOK, effRow]
 
 /-- an `Explicit` (cached-form) sheet satisfying the invariant exists -/
 theorem nonvacuous_explicit :
